@@ -205,6 +205,55 @@ def sanitizer_signature(out):
     return "sanitizer.%s.%s" % (kind, fn)
 
 
+def is_sanitizer(label):
+    """Labels of LegacyTrace for a crash event: "sanitizer.<kind>.<fn>" / "oom.<parser>.sanitizer.<kind>.<fn>"."""
+    return label.startswith("sanitizer.") or ".sanitizer." in label
+
+
+MAX_RESUME = 400       # sanitizer aborts after which the rest of one harness input is given up (counted, never silent)
+
+
+def execute(exe, texts, ids, srcs, base, seed, timeout):
+    """Run the harness over the vectors `ids` (in this order) and collect the recorded lines in <base>.ndjson.
+    A sanitizer abort ends the harness process inside a vector (crash event with the vector id): the harness is
+    started again behind that vector, so that one aborting vector never hides the vectors after it.
+    -> (trace path, lines, calls, mutated lines, [(sanitizer signature, report text, vector id or None)],
+        number of vectors not executed because MAX_RESUME aborts were reached)"""
+    vp, raw, tr = base + ".vec", base + ".raw", base + ".ndjson"
+    todo = list(ids)
+    san = []
+    with open(tr, "w"):
+        pass
+    nl = nc = nm = 0
+    for attempt in range(MAX_RESUME):
+        with open(vp, "w") as f:
+            for i in todo:
+                f.write(texts[i])
+        rc, out = run_harness(exe, vp, raw, seed, timeout)
+        if rc == 124:
+            raise vlib.MachineryError("harness timeout on %s" % vp)
+        if rc == 3 or not os.path.exists(raw):
+            raise vlib.MachineryError("harness failed rc=%d on %s:\n%s" % (rc, vp, out[-3000:]))
+        sig = sanitizer_signature(out)[len("sanitizer."):] if rc != 0 else None
+        a, b, c, crashed = add_src(raw, tr, srcs, crash_sig=sig, append=True)
+        nl, nc, nm = nl + a, nc + b, nm + c
+        os.unlink(raw)
+        if rc != 0:
+            san.append((sig, out[-6000:], crashed))
+        if crashed is None:                       # ran to the end (a report at exit, if any, is in `san`)
+            todo = []
+            break
+        if crashed not in todo:
+            raise vlib.MachineryError("harness aborted in vector %s, which is not in its input %s" % (crashed, vp))
+        todo = todo[todo.index(crashed) + 1:]     # go on behind the vector that killed the process
+        if not todo:
+            break
+    with open(vp, "w") as f:                      # leave the whole input behind, not the last remainder
+        for i in ids:
+            f.write(texts[i])
+    return tr, nl, nc, nm, san, len(todo)
+
+
 class Campaign:
     """vectors -> harness -> trace validation, sharded."""
 
@@ -218,6 +267,7 @@ class Campaign:
         self.sanitizer_reports = {}
         self.sigmap = lambda s: s          # label -> violation signature (legacy_oom in C14: "c14.legacy." + ...)
         self.exit_reports = set()
+        self.not_executed = 0  # vectors behind the MAX_RESUME-th sanitizer abort of their shard
         self.devs = []         # (shard trace path, dev object)
         self.coverage = {}
         self.accepted_lines = 0
@@ -233,48 +283,18 @@ class Campaign:
         ids = sorted(self.texts)
         shards = [ids[i::NSHARD] for i in range(NSHARD)]
         shards = [s for s in shards if s]
-        jobs = []
-        for k, sh_ids in enumerate(shards):
-            vp = os.path.join(ctx.out, "%s.%d.vec" % (self.name, k))
-            with open(vp, "w") as f:
-                for i in sh_ids:
-                    f.write(self.texts[i])
-            jobs.append((k, vp, os.path.join(ctx.out, "%s.%d.raw" % (self.name, k)),
-                         os.path.join(ctx.out, "%s.%d.ndjson" % (self.name, k))))
+        jobs = [(k, os.path.join(ctx.out, "%s.%d" % (self.name, k))) for k in range(len(shards))]
 
         def one(job):
-            k, vp, raw, tr = job
-            todo = list(shards[k])
-            san = []
-            with open(tr, "w"):
-                pass
-            nl = nc = nm = 0
-            for attempt in range(10):
-                with open(vp, "w") as f:
-                    for i in todo:
-                        f.write(self.texts[i])
-                rc, out = run_harness(self.exe, vp, raw, ctx.seed, timeout)
-                if rc == 124:
-                    raise vlib.MachineryError("harness timeout on %s" % vp)
-                if rc == 3 or not os.path.exists(raw):
-                    raise vlib.MachineryError("harness failed rc=%d on %s:\n%s" % (rc, vp, out[-3000:]))
-                sig = sanitizer_signature(out)[len("sanitizer."):] if rc != 0 else None
-                a, b, c, crashed = add_src(raw, tr, self.srcs, crash_sig=sig, append=True)
-                nl, nc, nm = nl + a, nc + b, nm + c
-                os.unlink(raw)
-                if rc != 0:
-                    san.append((sig, out[-6000:], crashed))
-                if crashed is None or crashed not in todo:
-                    break
-                todo = todo[todo.index(crashed) + 1:]     # go on behind the vector that killed the process
-                if not todo:
-                    break
+            k, base = job
+            tr, nl, nc, nm, san, skipped = execute(self.exe, self.texts, shards[k], self.srcs, base, ctx.seed, timeout)
             devs, r = validate(tr, nl, timeout, coverage=(k == 0))
-            return tr, nl, nc, nm, devs, r, san
+            return tr, nl, nc, nm, devs, r, san, skipped
 
         with concurrent.futures.ThreadPoolExecutor(max_workers=NSHARD) as ex:
             results = list(ex.map(one, jobs))
-        for tr, nl, nc, nm, devs, r, san in results:
+        for tr, nl, nc, nm, devs, r, san, skipped in results:
+            self.not_executed += skipped
             self.lines += nl
             self.calls += nc
             self.mutated += nm
@@ -313,7 +333,15 @@ def oom_sig(label):
 
 
 def report_deviations(ctx, camp, confirm_exe, sigmap=oom_sig):
-    """Map the deviations printed by LegacyTrace to violations (one per distinct signature)."""
+    """Map the deviations printed by LegacyTrace to violations (one per distinct signature).
+
+    Confirmation rule.  A label that is not a known finding is reported only if a separate re-run of the vector
+    that showed it (its own harness process batch, resumed behind every sanitizer abort) shows the *same label for
+    the same vector* again.  Only labels are compared, never the concrete wrong values (after a memory error these
+    may differ from run to run).  Sanitizer reports always win: a sanitizer label is reported whether it comes from
+    the first run or from the re-run, and a label that does not repeat because the re-run of its vector was aborted
+    by a sanitizer is replaced by that sanitizer label.  A label that does not repeat for no such reason is never
+    reported; if nothing else is left to report the run ends as a machinery error (flaky observation)."""
     by_sig = {}
     for tr, d in camp.devs:
         for lab in set(d.get("labels", [])):
@@ -331,17 +359,44 @@ def report_deviations(ctx, camp, confirm_exe, sigmap=oom_sig):
         return any(k["property"] == ctx.pid and re.search(k["signature"], sigmap(sig))
                    for k in ctx.kf.get("known", []))
 
-    # a new deviation is reported only if it reproduces on a re-run of its vector alone (one batch)
-    new = [s for s in sorted(by_sig) if not is_known(s) and camp.texts.get(by_sig[s]["first"][1].get("id", -1))]
+    def first_id(sig):
+        return by_sig[sig]["first"][1].get("id", -1)
+
+    new = [s for s in sorted(by_sig) if not is_known(s) and camp.texts.get(first_id(s))]
+    dropped = {}
     if new:
-        ids = sorted(set(by_sig[s]["first"][1]["id"] for s in new))
-        again = replay_vector(ctx, confirm_exe, "".join(camp.texts[i] for i in ids),
-                              {i: camp.srcs.get(i) for i in ids}, "confirm")
+        ids = sorted(set(first_id(s) for s in new))
+        again, rdevs, reports = replay_vectors(ctx, confirm_exe, [(i, camp.texts[i]) for i in ids],
+                                               {i: camp.srcs.get(i) for i in ids}, "confirm-" + camp.name)
+        for rsig, text, crashed in reports:
+            camp.sanitizer_reports.setdefault("sanitizer." + rsig, text)
+            if crashed is None and rsig not in camp.exit_reports:
+                camp.exit_reports.add(rsig)
+                ctx.violation(sigmap("sanitizer." + rsig), "sanitizer report at exit of the harness (re-run):\n%s" % text)
+        for tr, d in rdevs:                       # sanitizer aborts that only the re-run showed
+            for lab in d.get("labels", []):
+                if is_sanitizer(lab) and lab not in by_sig:
+                    by_sig[lab] = {"n": 1, "first": (tr, d)}
         for s in new:
-            if s not in again:
-                raise vlib.MachineryError("deviation %s of vector %s did not reproduce on re-run" %
-                                          (s, by_sig[s]["first"][1]["id"]))
+            got = again.get(first_id(s), set())
+            if is_sanitizer(s) or s in got:
+                continue
+            aborted = sorted(x for x in got if is_sanitizer(x))
+            dropped[s] = {"vector": first_id(s), "lines_in_first_run": by_sig[s]["n"], "labels_of_rerun": sorted(got),
+                          "why": ("re-run of the vector aborted by a sanitizer: reported as %s" % aborted[0]) if aborted
+                                 else "label did not repeat on the re-run of its vector"}
+        flaky = sorted(s for s in dropped if not dropped[s]["why"].startswith("re-run of the vector aborted"))
+        if flaky and not any(s not in dropped and not is_known(s) for s in by_sig) and not ctx.violations:
+            raise vlib.MachineryError("deviation %s of vector %s did not reproduce on re-run (labels of the re-run: %s)" %
+                                      (flaky[0], dropped[flaky[0]]["vector"], dropped[flaky[0]]["labels_of_rerun"]))
+        for s in sorted(dropped):
+            ctx.log("not reported: %s (vector %s): %s" % (sigmap(s), dropped[s]["vector"], dropped[s]["why"]))
+            del by_sig[s]
+        if dropped:
+            ctx.notes.setdefault("unconfirmed_labels", {}).update({sigmap(s): v for s, v in dropped.items()})
     for sig in sorted(by_sig):
+        if sigmap(sig) in [v[0] for v in ctx.violations]:
+            continue                       # already reported by an earlier stage (plain calls of the sweep lines)
         tr, d = by_sig[sig]["first"]
         vid = d.get("id", -1)
         detail = [x for x in d.get("detail", []) if sig in x.get("labels", [])]
@@ -354,40 +409,78 @@ def report_deviations(ctx, camp, confirm_exe, sigmap=oom_sig):
         replay = json.dumps({"signature": sigmap(sig), "vector": camp.texts.get(vid, ""), "seed": ctx.seed,
                              "detail": detail[:1]}, indent=1)
         ctx.violation(sigmap(sig), text, replay_content=replay)
+    if camp.not_executed:
+        ctx.log("%s: %d vectors were not executed (behind the %d-th sanitizer abort of their shard)" %
+                (camp.name, camp.not_executed, MAX_RESUME))
+        ctx.notes.setdefault("vectors_not_executed_after_aborts", {})[camp.name] = camp.not_executed
     return {sigmap(s): v["n"] for s, v in by_sig.items()}
 
 
-def replay_vector(ctx, exe, vec_text, srcs, tag, seed=None):
-    vp = os.path.join(ctx.out, "%s.vec" % tag)
-    raw = os.path.join(ctx.out, "%s.raw" % tag)
-    tr = os.path.join(ctx.out, "%s.ndjson" % tag)
-    with open(vp, "w") as f:
-        f.write(vec_text)
-    rc, out = run_harness(exe, vp, raw, ctx.seed if seed is None else seed, 300)
-    labels = set()
-    sig = None
-    if rc != 0:
-        if rc in (3, 124) or not os.path.exists(raw):
-            raise vlib.MachineryError("harness failed rc=%d on replay:\n%s" % (rc, out[-3000:]))
-        labels.add(sanitizer_signature(out))
-        sig = sanitizer_signature(out)[len("sanitizer."):]
-    nl = add_src(raw, tr, {k: v for k, v in srcs.items() if v}, crash_sig=sig)[0]
+def split_vectors(text):
+    """Harness input text -> [(vector id, text of that vector)]."""
+    res = []
+    for blk in re.split(r"(?m)^(?=V \d+)", text):
+        m = re.match(r"V (\d+)", blk)
+        if m:
+            res.append((int(m.group(1)), blk))
+    return res
+
+
+def replay_vectors(ctx, exe, vectors, srcs, tag, seed=None):
+    """Execute the vectors [(id, text)] in a harness run of their own (resumed behind sanitizer aborts) and validate
+    the recorded lines.  -> ({vector id: labels of its lines; -1: labels of the end-of-process events},
+    [(trace path, deviation)], [(sanitizer signature, report text, aborted vector id or None)])"""
+    texts = dict(vectors)
+    ids = [i for i, _ in vectors]
+    tr, nl, _, _, reports, skipped = execute(exe, texts, ids, {k: v for k, v in srcs.items() if v},
+                                             os.path.join(ctx.out, tag), ctx.seed if seed is None else seed, 300)
+    if skipped:
+        raise vlib.MachineryError("replay %s: more than %d sanitizer aborts" % (tag, MAX_RESUME))
     devs, _ = validate(tr, nl)
+    by_id = {}
     for d in devs:
-        labels |= set(d.get("labels", []))
-    return labels
+        by_id.setdefault(d.get("id", -1), set()).update(d.get("labels", []))
+    for rsig, _, crashed in reports:
+        if crashed is None:                      # report at exit (leaks): no crash event in the trace
+            by_id.setdefault(-1, set()).add("sanitizer." + rsig)
+    return by_id, [(tr, d) for d in devs], reports
+
+
+def replay_vector(ctx, exe, vec_text, srcs, tag, seed=None):
+    """All labels of a harness input given as text (one or more vectors)."""
+    by_id, _, _ = replay_vectors(ctx, exe, split_vectors(vec_text), srcs, tag, seed=seed)
+    return set().union(*by_id.values()) if by_id else set()
 
 
 # ------------------------------------------------------------------ the check
-def generate(ctx, cfg, **kw):
-    r = ctx.model_check("Legacy/LegacyGen.tla", cfg, **kw)
+def generate(ctx, cfg, spec="Legacy/LegacyGen.tla", **kw):
+    r = ctx.model_check(spec, cfg, **kw)
     if r.violation:
-        raise vlib.MachineryError("LegacyGen: invariant %s of the view model is violated (model bug):\n%s" %
-                                  (r.violation, r.out[-4000:]))
+        raise vlib.MachineryError("%s: invariant %s of the view model is violated (model bug):\n%s" %
+                                  (spec, r.violation, r.out[-4000:]))
     vecs = parse_printed(r.out, "vec")
     if not vecs:
-        raise vlib.MachineryError("LegacyGen printed no vectors:\n" + r.out[-3000:])
+        raise vlib.MachineryError("%s printed no vectors:\n" % spec + r.out[-3000:])
     return vecs, r
+
+
+def mixed_family(ctx):
+    """LegacyMixGen.tla: answers alias^k addr^j whose address records are freely A or AAAA (records of the other
+    family before / between records of the wanted family).  Vacuity: the patterns the family is for are members."""
+    vm, rm = generate(ctx, "LegacyMixGen.cfg", spec="Legacy/LegacyMixGen.tla", workers=4, timeout=600)
+    pats = set((v["fam"], tuple(r["type"] for r in v["msg"]["an"])) for v in vm)
+    need = [("AAAA", "A"), ("A", "AAAA"), ("A", "AAAA", "A"), ("AAAA", "A", "AAAA"), ("AAAA", "AAAA", "A", "A"),
+            ("CNAME", "AAAA", "A"), ("CNAME", "A", "AAAA", "A"), ("CNAME", "AAAA", "AAAA", "A", "A"),
+            ("CNAME", "CNAME", "A", "A", "AAAA", "AAAA"), ("CNAME", "CNAME", "AAAA", "A", "AAAA", "A")]
+    missing = [(f, p) for f in ("A", "AAAA") for p in need if (f, p) not in pats]
+    n_a = sum(1 for v in vm if v["mix"]["a"])
+    n_aaaa = sum(1 for v in vm if v["mix"]["aaaa"])
+    if missing or not n_a or not n_aaaa:
+        raise vlib.MachineryError("LegacyMixGen: the family lacks interleaved answers: missing %s (foreign record "
+                                  "before a wanted one: a %d, aaaa %d messages)" % (missing[:4], n_a, n_aaaa))
+    ctx.cov["mixed_family_messages"] = {"messages": len(vm), "other_family_before_wanted.a": n_a,
+                                        "other_family_before_wanted.aaaa": n_aaaa}
+    return vm, rm
 
 
 def dedup(vecs):
@@ -468,6 +561,14 @@ def run(ctx):
     have = set(canon(v["msg"]) for v in vecs)
     vecs += [v for v in vc if canon(v["msg"]) not in have]
     n_chain = len(vc)
+    # address records of both families in one answer, every family pattern of up to 5 address records behind 0..2 aliases
+    vm, rm = mixed_family(ctx)
+    ctx.log("LegacyMixGen (BFS, A/AAAA records interleaved): %d messages (%d / %d with a record of the other family "
+            "before one wanted by ares_parse_a_reply / ares_parse_aaaa_reply), all view invariants hold (%.1fs)" %
+            (len(vm), ctx.cov["mixed_family_messages"]["other_family_before_wanted.a"],
+             ctx.cov["mixed_family_messages"]["other_family_before_wanted.aaaa"], rm.wall))
+    have = set(canon(v["msg"]) for v in vecs)
+    vecs += [v for v in vm if canon(v["msg"]) not in have]
     n_bfs = len(vecs)
     if not ctx.quick:
         vs, r2 = generate(ctx, "LegacyGen_sim.cfg", workers=8, timeout=900, simulate=6000, depth=10,
